@@ -36,6 +36,7 @@ import GdVerif.Run.Small
 import GdVerif.Run.FfowFaults
 import GdVerif.Run.MindustryFaults
 import GdVerif.Run.Http
+import GdVerif.Run.GenHttp
 /-
   gdmodel: the model behind a line protocol.
     gdmodel run        : reads `<id> <entry> <args…>` lines on stdin, prints `<id> <outcome>`
@@ -114,7 +115,7 @@ def main (args : List String) : IO UInt32 := do
         | "gs3" => genGs3 seed n
         | "jc2m" => genJc2m seed n
         | "master" => genMaster seed n
-        | s => (smallGen s seed n).getD []
+        | s => ((smallGen s seed n).orElse fun _ => httpGen s seed n).getD []
       for l in lines do IO.println l
       return 0
     | _, _ => return 2
